@@ -877,6 +877,24 @@ class Emitter:
         self.report["ghost statements spliced (write ghost variables only)"] += 1
         return "  " * ind + "XC_GHOST(" + g + ")"
 
+    def _var_written(self, root, vid):
+        """is the variable assigned, incremented or address-taken anywhere under root (lambda bodies included)?"""
+        def refs(x):
+            x = self._strip_all(x) if isinstance(x, dict) and x.get("kind") else x
+            return isinstance(x, dict) and x.get("kind") == "DeclRefExpr" and x.get("referencedDecl", {}).get("id") == vid
+
+        def walk(x):
+            if not isinstance(x, dict):
+                return False
+            k = x.get("kind")
+            inner = x.get("inner", [])
+            if k in ("BinaryOperator", "CompoundAssignOperator") and (k == "CompoundAssignOperator" or x.get("opcode", "").endswith("=") and x.get("opcode") not in ("==", "!=", "<=", ">=")) and inner and refs(inner[0]):
+                return True
+            if k == "UnaryOperator" and x.get("opcode") in ("++", "--", "&") and inner and refs(inner[0]):
+                return True
+            return any(walk(c) for c in inner)
+        return walk(root)
+
     def _is_internal_log(self, n):
         def has(x):
             if isinstance(x, dict):
@@ -965,6 +983,12 @@ class Emitter:
             self.cur["refs"][v["id"]] = True
             return pad + "%s = &(%s);" % (vt.decl(name), self.lvalue(init[0]))
         st = "static " if v.get("storageClass") == "static" else ""
+        if st and init and self._strip_all(init[0]).get("kind") == "StringLiteral" and vt.ptr == 1 and not vt.dims and \
+                not self._var_written(self.cur["decl"], v["id"]):
+            # static pointer to a string literal that the function never reassigns: the same value at every call; emitted as a plain
+            # local (goto-instrument --dfcc gives static objects an arbitrary initial value, which is not what C++ does)
+            self.report["function-local static pointers to string literals (never reassigned) emitted as plain locals"] += 1
+            st = ""
         if not init:
             return pad + st + vt.decl(name) + ";"
         i0 = init[0]
